@@ -48,6 +48,9 @@ func (x *Exec) execInstr(fr *Frame, st *State, instr ssa.Instruction) {
 			if obj := t.Object(); obj != nil && obj.Pkg() != nil && obj.Parent() == obj.Pkg().Scope() {
 				break // package-level object: specs resolve it through the package scope
 			}
+			if v, isVar := t.Object().(*types.Var); isVar && v.IsField() {
+				break // selector identifiers (x.f) are not local names
+			}
 			if v, have := fr.vals[t.X]; have {
 				fr.namedDefs[id.Name] = append(fr.namedDefs[id.Name], namedDef{t.Block(), v, t.IsAddr})
 			} else if _, isConst := t.X.(*ssa.Const); !isConst && !t.IsAddr {
